@@ -5,6 +5,7 @@ import (
 	"fmt"
 	"math"
 	"math/rand"
+	"os"
 	"sort"
 	"time"
 
@@ -352,14 +353,20 @@ func c07Run(raw []byte) (*Line, error) {
 			}
 			sort.Float64s(xs)
 			n := float64(c.N)
+			scale := math.Max(math.Abs(d.xs[0]), math.Abs(d.xs[len(d.xs)-1]))
 			for i := 0; i < len(xs); {
 				j := i
 				for j < len(xs) && xs[j] == xs[i] {
 					j++
 				}
-				// i draws are < xs[i], j draws are <= xs[i]
-				ks = math.Max(ks, math.Abs(float64(j)/n-d.CDF(xs[i])))
-				ks = math.Max(ks, math.Abs(float64(i)/n-d.CDF(math.Nextafter(xs[i], math.Inf(-1)))))
+				// i draws are < xs[i], j draws are <= xs[i].  A draw may sit up to the property's
+				// tolerance away from the exact quantile (at an atom that alone would make the plain
+				// KS distance 1), so the empirical cdf is compared with the cdf shifted by that
+				// tolerance to either side; this statistic is <= the KS distance of exact draws.
+				v := xs[i]
+				tol := 1e-9*math.Abs(v) + 1e-9*scale + 2e-16
+				ks = math.Max(ks, float64(j)/n-d.CDF(v+tol))
+				ks = math.Max(ks, d.CDF(math.Nextafter(v-tol, math.Inf(-1)))-float64(i)/n)
 				i = j
 			}
 			if math.IsNaN(xs[0]) || math.IsNaN(xs[len(xs)-1]) {
@@ -480,7 +487,7 @@ func c07GenPW(rng *rand.Rand) (knots []c07Knot, step float64) {
 	}
 	// a minority with full-mantissa break points and levels (the float64 evaluation of a ramp is
 	// then rounded; jumps and flats are still exact because only comparisons are involved)
-	if rng.Intn(10) == 0 {
+	if rng.Intn(10) == 0 && (c != 0 || n > 1) {
 		prev := 0.0
 		for i := range knots {
 			knots[i].X = F64(float64(knots[i].X) + step*rng.Float64()/8)
@@ -607,6 +614,17 @@ func c07Gen(tier string, rng *rand.Rand, emit func(interface{})) {
 			Ys: toF64s([]float64{0, 1, 0.5, math.Ldexp(1, -53), 1 - math.Ldexp(1, -53), -1, 2, math.NaN()})})
 		emit(c07Case{Op: 0, Knots: []c07Knot{{X: F64(t - 1), L: 0, V: 0}, {X: F64(t), L: 0.5, V: 0.5}, {X: F64(t + 2), L: 0.5, V: 0.5}, {X: F64(t + 3), L: 1, V: 1}},
 			Bl: F64(t - 1), Bh: F64(t + 3), Ys: toF64s([]float64{0, 1, 0.5, 0.25, 0.75, math.Nextafter(0.5, 1), math.Nextafter(0.5, 0)})})
+	}
+	// opt-in (VERIF_C07_TINY=1): distributions narrower than 1e-7 located at 0, where bisectBool's
+	// absolute xtol = 1e-16 limits the relative accuracy (reported under verdict code 10)
+	if os.Getenv("VERIF_C07_TINY") != "" {
+		for _, e := range []int{-24, -30, -40, -50, -70} {
+			w := math.Ldexp(1, e)
+			ys := toF64s([]float64{0.5, 0.25, 0.75, 0.3, 0.7, 0, 1})
+			emit(c07Case{Op: 0, Knots: []c07Knot{{X: 0, L: 0, V: 0}, {X: F64(w), L: 1, V: 1}}, Bl: 0, Bh: F64(w), Ys: ys})
+			emit(c07Case{Op: 0, Knots: []c07Knot{{X: F64(w), L: 0, V: 1}}, Bl: F64(w), Bh: F64(w), Ys: ys})
+			emit(c07Case{Op: 0, Knots: []c07Knot{{X: F64(-w), L: 0, V: 0.5}, {X: F64(w), L: 0.5, V: 1}}, Bl: F64(-w), Bh: F64(w), Ys: ys})
+		}
 	}
 	// (a) random piecewise distributions
 	for i := 0; i < 1800*mul; i++ {
